@@ -26,6 +26,9 @@ package main
 //                  through every logging entry point (Debugf/Info/Warnf/Error/Infof/WriteLog/Trace, text and JSON): one entry =
 //                  exactly one Write call with exactly its bytes; other modes also draw about 1 in 8 entries above 64 KiB
 //                  when their padding limit is 70000;
+//        levels  — the first Write is blocked; in 2-4 phases the global level is set (DEBUG..OFF, raised and lowered) and every
+//                  goroutine calls all seven entry points; the level is set once more, then the flush: what passed the level
+//                  filter at call time (and every WriteLog / Trace) must be written once and in order, what was filtered never;
 //        rawonly — like late, but only WriteLog / Trace calls precede the flush;
 //        swap    — entries are queued behind a blocked writer, every logger gets a new writer (SetWriter), more entries are
 //                  logged, then the flush: each entry must reach the writer installed when its logging call was made;
@@ -113,6 +116,9 @@ type c20Scenario struct {
 	Callers  int  `json:"callers,omitempty"`
 	// mode sizes: the payload of entry n has exactly Sizes[n % len(Sizes)] bytes and goes through entry point (n/len(Sizes)+g) % 7
 	Sizes    []int `json:"sizes,omitempty"`
+	// mode levels: the global level of each phase (0 DEBUG .. 4 OFF) and the level set just before the flush
+	Levels   []int `json:"levels,omitempty"`
+	Final    int   `json:"final,omitempty"`
 	Kind     int  `json:"kind,omitempty"`
 	InFilter bool `json:"in_filter,omitempty"`
 }
@@ -203,6 +209,11 @@ func c20Shape(sc *c20Scenario, g, n int) (w, api int, pad string) {
 			pl = sc.Pad
 		}
 	}
+	if sc.Mode == "levels" {
+		if v, ok := c20ApiOf.Load(c20Key{g, n}); ok {
+			api = v.(int)
+		}
+	}
 	if k := len(sc.Sizes); k > 0 { // exact payload sizes, every entry point in turn
 		api = (n/k + g) % 7
 		pl = sc.Sizes[n%k] - len(fmt.Sprintf("c20|%d|%d|%d||end", g, n, w))
@@ -237,6 +248,9 @@ var c20TracePrefix = regexp.MustCompile(`^\d{4}-\d\d-\d\d \d\d:\d\d:\d\d\|$`)
 // c20Parse maps the buffer of one Write to the entry it is; msg != "" when it is not exactly one whole entry
 func c20Parse(sc *c20Scenario, w *c20Writer, v []byte) (g, n int, msg string) {
 	s := string(v)
+	if strings.Contains(s, "c20f|") {
+		return c20BadG, 0, fmt.Sprintf("FILTERED: writer %d received an entry whose logging call was below the level at the time of the call: %.100q", w.id, s)
+	}
 	i := strings.Index(s, "c20|")
 	if i < 0 {
 		return c20BadG, 0, fmt.Sprintf("writer %d received a buffer that contains no entry: %.80q", w.id, s)
@@ -284,6 +298,8 @@ type c20Env struct {
 	recs    [][]c20Rec // per logging goroutine, plus one for the flush caller (index G)
 	file    *os.File
 	next    []int // next sequence number per goroutine
+	level   int   // mode levels: the global level now (changed only while no logging call is in progress)
+	calls   []int // mode levels: logging calls made so far per goroutine (accepted or filtered)
 	cur     []int // id of the writer currently installed on each logger (changed only while no logging call is in progress)
 }
 
@@ -296,14 +312,37 @@ func (e *c20Env) rec(slot int, kind, g, n, w int) {
 }
 
 // logOne performs the next logging call of goroutine g (only g itself calls this)
+// levels of the entry points 0..4 (Debugf, Info, Warnf, Error, Infof); WriteLog (5) and Trace (6) have none
+var c20ApiLevel = []int{0, 1, 2, 3, 1}
+
+// mode levels: the entry point of entry (g, n) is chosen per call, not per entry (a filtered call creates no entry)
+var c20ApiOf sync.Map
+
 func (e *c20Env) logOne(g int) {
 	n := e.next[g]
+	if e.sc.Mode == "levels" {
+		k := e.calls[g]
+		e.calls[g]++
+		api := int((uint64(e.sc.Seed)>>3 + uint64(g)*7919 + uint64(k)*104729) % 7)
+		if api < 5 && c20ApiLevel[api] < e.level {
+			// below the level now: the call must be filtered and nothing of it may ever reach a writer
+			w, _, _ := c20Shape(e.sc, g, n)
+			c20CallApi(e.loggers[w], api, fmt.Sprintf("c20f|%d|%d|filtered at level %d", g, k, e.level))
+			return
+		}
+		c20ApiOf.Store(c20Key{g, n}, api)
+	}
 	e.next[g]++
 	w, api, _ := c20Shape(e.sc, g, n)
 	p := c20Payload(e.sc, g, n)
 	lg := e.loggers[w]
 	wid := e.cur[w] // the writer this entry is addressed to: the one installed on its logger now
 	e.rec(g, c20KCall, g, n, wid)
+	c20CallApi(lg, api, p)
+	e.rec(g, c20KRet, g, n, wid)
+}
+
+func c20CallApi(lg *rogger.Logger, api int, p string) {
 	switch api {
 	case 0:
 		lg.Debugf("%s", p)
@@ -320,7 +359,6 @@ func (e *c20Env) logOne(g int) {
 	case 6:
 		lg.Trace(p)
 	}
-	e.rec(g, c20KRet, g, n, wid)
 }
 
 // c20Disp is the dispatcher handed to the real tars Protocol in mode invoke
@@ -457,7 +495,7 @@ func c20RunScenario(sc c20Scenario) c20ChildOut {
 	if sc.JSON {
 		rogger.SetFormat(rogger.Json)
 	}
-	env := &c20Env{sc: &sc, recs: make([][]c20Rec, sc.G+1+sc.Callers), next: make([]int, sc.G)}
+	env := &c20Env{sc: &sc, recs: make([][]c20Rec, sc.G+1+sc.Callers), next: make([]int, sc.G), calls: make([]int, sc.G)}
 	if sc.Dir != "" {
 		f, err := os.OpenFile(filepath.Join(sc.Dir, "events.log"), os.O_WRONLY|os.O_CREATE|os.O_APPEND, 0o644)
 		if err != nil {
@@ -468,7 +506,7 @@ func c20RunScenario(sc c20Scenario) c20ChildOut {
 	}
 	var gate chan struct{}
 	var gated int32
-	if sc.Mode == "fullq" || sc.Mode == "swap" {
+	if sc.Mode == "fullq" || sc.Mode == "swap" || sc.Mode == "levels" {
 		gate = make(chan struct{})
 	}
 	for w := 0; w < sc.W; w++ {
@@ -660,6 +698,23 @@ func c20RunScenario(sc c20Scenario) c20ChildOut {
 			out.Hook = "tars.Run returned but the flusher has not acknowledged a flush (FlushLogger not called on the way out, or it ran into its time limit)"
 			return out
 		}
+	case "levels":
+		// the first Write blocks: what is accepted stays queued while the level is changed (raised and lowered) between the
+		// phases and once more just before the flush; every entry point at every level
+		for _, lv := range sc.Levels {
+			rogger.SetLevel(rogger.LogLevel(lv))
+			env.level = lv
+			for g := 0; g < sc.G; g++ {
+				wg.Add(1)
+				go logN(g, sc.N, false, &wg)
+			}
+			wg.Wait()
+		}
+		rogger.SetLevel(rogger.LogLevel(sc.Final))
+		env.level = sc.Final
+		out.Note = fmt.Sprintf("queued at the last level change: %d", rogger.VerifQueueLen())
+		close(gate)
+		flush()
 	case "swap":
 		// the first Write blocks: everything logged now stays queued, addressed to the first writers
 		for g := 0; g < sc.G; g++ {
@@ -1153,8 +1208,16 @@ func c20Run(c *c20Case) []Failure {
 			fs = append(fs, Failure{Sig: sig, Desc: out.Hook})
 		}
 		for _, m := range out.Content {
-			fs = append(fs, Failure{Sig: "C20/write/not-one-whole-entry", Desc: m})
-			break
+			if strings.HasPrefix(m, "FILTERED:") {
+				fs = append(fs, Failure{Sig: "C20/level/filtered-entry-written", Desc: m})
+				break
+			}
+		}
+		for _, m := range out.Content {
+			if !strings.HasPrefix(m, "FILTERED:") {
+				fs = append(fs, Failure{Sig: "C20/write/not-one-whole-entry", Desc: m})
+				break
+			}
 		}
 		if sc.Mode == "lifecycle" && cerr == "" && out.Hook == "" {
 			want := 3 // tars.Run returned
@@ -1282,6 +1345,18 @@ func c20Gen(tier string, rng *rand.Rand) []c20Case {
 			sc.N = 5 + rng.Intn(20)
 			sc.Delay = []int{0, 50, 50}[rng.Intn(3)]
 			sc.Last = []int{0, 3000}[rng.Intn(2)] // request timeout: with and without the deferred cancel
+		case "levels":
+			sc.G = 1 + rng.Intn(4)
+			sc.N = 3 + rng.Intn(8)
+			sc.W = 1 + rng.Intn(3)
+			for k := 2 + rng.Intn(3); k > 0; k-- {
+				sc.Levels = append(sc.Levels, rng.Intn(5))
+			}
+			sc.Final = rng.Intn(5)
+			sc.Delay = []int{0, 0, 20}[rng.Intn(3)]
+			if sc.Pad > 5000 {
+				sc.Pad = 600
+			}
 		case "sizes":
 			// entry sizes around the boundaries a writer / buffer may have, through every logging entry point
 			sc.Sizes = []int{1, 4095, 4096, 4097, 65535, 65536, 65537, 200 << 10, 1 << 20}
@@ -1315,13 +1390,13 @@ func c20Gen(tier string, rng *rand.Rand) []c20Case {
 		}
 		return c20Case{Sc: sc, Expect: true}
 	}
-	counts := map[string]int{"forced": 200, "stress": 120, "late": 40, "fullq": 4, "quiesce": 12, "panic": 32, "second": 4, "runexit": 8, "rawonly": 4, "swap": 16, "invoke": 16, "clientcall": 16, "lifecycle": 16, "sizes": 6}
+	counts := map[string]int{"forced": 200, "stress": 120, "late": 40, "fullq": 4, "quiesce": 12, "panic": 32, "second": 4, "runexit": 8, "rawonly": 4, "swap": 16, "invoke": 16, "clientcall": 16, "lifecycle": 16, "sizes": 6, "levels": 20}
 	if tier == "thorough" {
-		counts = map[string]int{"forced": 3000, "stress": 2000, "late": 600, "fullq": 30, "quiesce": 150, "panic": 400, "second": 20, "runexit": 100, "rawonly": 40, "swap": 200, "invoke": 128, "clientcall": 64, "lifecycle": 160, "sizes": 16}
+		counts = map[string]int{"forced": 3000, "stress": 2000, "late": 600, "fullq": 30, "quiesce": 150, "panic": 400, "second": 20, "runexit": 100, "rawonly": 40, "swap": 200, "invoke": 128, "clientcall": 64, "lifecycle": 160, "sizes": 16, "levels": 250}
 	}
 	// the smallest forced case first: one goroutine, one entry inside the window
 	cs = append(cs, c20Case{Sc: c20Scenario{Mode: "forced", G: 1, N: 0, Last: 1, LastN: 1, W: 1, Procs: 2, Seed: 1}, Expect: true})
-	for _, m := range []string{"forced", "stress", "late", "rawonly", "sizes", "swap", "fullq", "quiesce", "panic", "invoke", "clientcall", "lifecycle", "runexit", "second"} {
+	for _, m := range []string{"forced", "stress", "late", "rawonly", "sizes", "levels", "swap", "fullq", "quiesce", "panic", "invoke", "clientcall", "lifecycle", "runexit", "second"} {
 		for i := 0; i < counts[m]; i++ {
 			cs = append(cs, mk(m))
 		}
